@@ -348,4 +348,38 @@ def tempUnary (tab : TTable K) (op : UnOp) (u : TU K) : Except Err (UnitV K) :=
 
 end mulpow
 
+/-! ### candidate repairs (design.d/C08.md; not what the current tree does — the driver serves them
+    under `c08.fixed.*` so that applying a repair to unyt is a one-word change in the harness) -/
+section repairs
+variable {K : Type} [Add K] [Sub K] [Mul K] [Div K] [OfNat K 0] [OfNat K 1] [BEq K] [IsClose K]
+
+/-- repair 1: when the sum will be labelled with the second unit (difference + point), rescale
+    the *first* operand to that unit instead of the second to the first -/
+def tempAddFixed (tab : TTable K) (u0 : TU K) (x0 : K) (u1 : TU K) (x1 : K) : Except Err (TU K × K) :=
+  if krGuard tab u0 u1 then .error .UnitOperationError
+  else
+    match convSecond tab u0 u1 with
+    | .error e => .error e
+    | .ok c =>
+      if !hasOffset tab u0 && hasOffset tab u1 then
+        .ok (u1, applyC (c.map fun _ => u0.scale tab / u1.scale tab) x0 + x1)
+      else .ok (u0, x0 + applyC c x1)
+
+/-- repair 3: `diff_helper` keeps the unit of an offset-free temperature array -/
+def tempDiffFixed (tab : TTable K) (u : TU K) (xa xb : K) : Except Err (TU K × K) :=
+  if hasOffset tab u then .error .InvalidUnitOperation else .ok (u, xb - xa)
+
+/-- repair 2: `Unit.__pow__` refuses a unit with an offset unless the exponent is 1 -/
+def tempUnaryFixed [RPow K] (tab : TTable K) (op : UnOp) (u : TU K) : Except Err (UnitV K) :=
+  let refuse (p : Rat) : Bool := hasOffset tab u && p != 1
+  match op with
+  | .sqrt => if refuse (1 / 2) then .error .InvalidUnitOperation else tempUnary tab op u
+  | .cbrt => if refuse (1 / 3) then .error .InvalidUnitOperation else tempUnary tab op u
+  | .reciprocal => if refuse (-1) then .error .InvalidUnitOperation else tempUnary tab op u
+  | .power p => if refuse p then .error .InvalidUnitOperation else tempUnary tab op u
+  | .mulReduce n => if refuse n then .error .InvalidUnitOperation else tempUnary tab op u
+  | .square => tempUnary tab op u
+
+end repairs
+
 end Unyt.Temp
